@@ -18,6 +18,9 @@ Check ==
   CASE Ev.t = "tables" -> "ok"
     [] Ev.t = "contains" -> IF Ev.r # (IF SuperContains(ts, Ev.k) THEN "true" ELSE "false") THEN "super-contains" ELSE "ok"
     [] Ev.t = "get" -> IF Ev.r # SuperGet(ts, Ev.k) THEN "super-get" ELSE "ok"
+    \* C09 through a stack: one member's data file was damaged and the members verify every read - the stacked Get fails or returns the newest
+    \* value as it was written, never an older table's value and never other bytes
+    [] Ev.t = "dmgget" -> IF (Len(Ev.r) >= 4 /\ SubSeq(Ev.r, 1, 4) = "err:") \/ Ev.r = SuperGet(ts, Ev.k) THEN "ok" ELSE "damage-under-stack-served-other-value"
     [] Ev.t = "scan" -> IF ~OutEq(Ev, ScanOf(ts, K)) THEN "super-scan" ELSE "ok"
     [] Ev.t = "scanfrom" -> IF ~OutEq(Ev, ScanFromOf(ts, K, Ev.k)) THEN "super-scan-starting-at" ELSE "ok"
     [] Ev.t = "scanrange" -> IF Ev.lo > Ev.hi THEN (IF Ev.err = "" THEN "super-scan-range-lower-above-upper-not-rejected" ELSE "ok")
